@@ -11,7 +11,7 @@ monitor_name = "RetryOptsSpec.c18_ok"
 sub_names = {1: "direct parse_from_tags", 2: "CLI/builder merge seen by retry_options", 3: "resolution inside Basic::run"}
 rule = ("cases = (feature/rule/scenario tag lists, CLI, builder); 75% drawn from a well-formed stream (plain tags + the four "
         "retry forms with assorted counts/durations), 25% from a malformed stream (prefix-only, bad numbers, junk suffixes, "
-        "overflowing counts); tag filters are random formulas of depth <= 4. Non-trivial = at least one tag starting with "
+        "overflowing counts); tag filters are random formulas of depth <= 4 whose atoms are in 60% tags the case itself carries (on the feature, the rule or the scenario). Non-trivial = at least one tag starting with "
         "'retry' or a CLI/builder retry setting present; distinct = SHA-1 of the canonical case JSON.")
 trusted_base = [
     "Coq 8.16.1 kernel (coqc; coqchk in the thorough tier); vm_compute for evaluating the model on cases",
@@ -63,15 +63,18 @@ def tags(rng, malformed, p_retry):
     return out
 
 
-def tagexpr(rng, depth):
+def tagexpr(rng, depth, pool=None):
     if depth == 0 or rng.random() < 0.3:
+        # mostly tags that the case itself carries (so that the filter's verdict depends on where a tag sits)
+        if pool and rng.random() < 0.6:
+            return {"tag": rng.choice(pool)}
         return {"tag": rng.choice(PLAIN + ["retry", "retry(2)"])}
     k = rng.randrange(3)
     if k == 0:
-        return {"and": [tagexpr(rng, depth - 1), tagexpr(rng, depth - 1)]}
+        return {"and": [tagexpr(rng, depth - 1, pool), tagexpr(rng, depth - 1, pool)]}
     if k == 1:
-        return {"or": [tagexpr(rng, depth - 1), tagexpr(rng, depth - 1)]}
-    return {"not": tagexpr(rng, depth - 1)}
+        return {"or": [tagexpr(rng, depth - 1, pool), tagexpr(rng, depth - 1, pool)]}
+    return {"not": tagexpr(rng, depth - 1, pool)}
 
 
 def opt(rng, p, f):
@@ -81,16 +84,17 @@ def opt(rng, p, f):
 def gen_one(rng):
     malformed = rng.random() < 0.25
     p = rng.choice([0.0, 0.3, 0.6])
+    ftags, rtags, stags = tags(rng, malformed, p), opt(rng, 0.5, lambda: tags(rng, malformed, p)), tags(rng, malformed, p)
+    pool = sorted(set(ftags + (rtags or []) + stags))
     cli = dict(retry=opt(rng, 0.4, lambda: rng.choice([0, 1, 2, 5, 100])),
                retry_after=opt(rng, 0.3, lambda: rng.choice([0, 1, 1000000, 2500000000])),
-               filter=opt(rng, 0.35, lambda: tagexpr(rng, rng.randrange(1, 5))),
+               filter=opt(rng, 0.35, lambda: tagexpr(rng, rng.randrange(1, 5), pool)),
                concurrency=opt(rng, 0.3, lambda: rng.choice([1, 2, 8])), fail_fast=rng.random() < 0.3)
     builder = dict(retries=opt(rng, 0.4, lambda: rng.choice([0, 1, 3, 7])),
                    retry_after=opt(rng, 0.3, lambda: rng.choice([0, 5, 777000000])),
-                   filter=opt(rng, 0.3, lambda: tagexpr(rng, rng.randrange(1, 4))),
+                   filter=opt(rng, 0.3, lambda: tagexpr(rng, rng.randrange(1, 4), pool)),
                    concurrency=opt(rng, 0.6, lambda: rng.choice([1, 3, 64])), fail_fast=rng.random() < 0.3)
-    return dict(ftags=tags(rng, malformed, p), rtags=opt(rng, 0.5, lambda: tags(rng, malformed, p)),
-                stags=tags(rng, malformed, p), cli=cli, builder=builder)
+    return dict(ftags=ftags, rtags=rtags, stags=stags, cli=cli, builder=builder)
 
 
 def gen(rng, tier):
